@@ -39,8 +39,27 @@ class StubPrices(object):
         return self.p.get(asset, np.nan)
 
 
+class TwoSidedSource(object):
+    """a data source whose bid differs from its ask (the sizers must price at the ask)"""
+    def __init__(self, prices, crossed):
+        self.p = dict((a, (np.nan if p is None else p)) for a, p in prices)
+        self.p.setdefault('EQ:WARM1', 10.0)
+        self.p.setdefault('EQ:WARM2', 3.5)
+        self.k = 1.03 if crossed else 0.97
+
+    def get_ask(self, dt, asset):
+        return self.p.get(asset, np.nan)
+
+    def get_bid(self, dt, asset):
+        return self.p.get(asset, np.nan) * self.k
+
+
 def mk_sizer(c, broker):
-    dh = StubPrices(c['prices'])
+    if c.get('two_sided'):
+        from qstrader.data.backtest_data_handler import BacktestDataHandler
+        dh = BacktestDataHandler(None, data_sources=[TwoSidedSource(c['prices'], c['two_sided'] == 'crossed')])
+    else:
+        dh = StubPrices(c['prices'])
     if c['kind'] == 'long_only':
         return DollarWeightedCashBufferedOrderSizer(broker, 'p', dh, cash_buffer_percentage=c['param'])
     return LongShortLeveragedOrderSizer(broker, 'p', dh, gross_leverage=c['param'])
